@@ -21,7 +21,7 @@ RELEVANT FILES: {', '.join(d['anchors'].get('files', []))}
 Your task: produce {n} DIFFERENT, independent, realistic source changes to pyglove (each a small patch to the library code under {wt}/pyglove, not to tests) such that each change BREAKS this property while the code still imports and the existing test-suite still passes. Think of plausible regressions a maintainer could introduce: a refactoring that drops a step, an off-by-one, a missed case in one code path, a wrong condition, two cooperating sites that each look fine alone. IMPORTANT: prefer changes that need something specific to manifest - a particular multi-step sequence of operations, an unusual input shape, a specific option combination, a boundary value, a specific interleaving or crash point - NOT changes that ordinary use would expose at once (those would fail the existing tests anyway). Each change must break the property as stated (not some other behaviour).
 
 For each change k = 1..{n}:
- 1. Start from a clean tree (cd {wt} && git checkout -- . && git status).
+ 1. Start from a clean tree (cd {wt} && git checkout -- . && git status). NEVER use `git stash` (the stash is shared with other worktrees of this repository and other people use it); to go back and forth use `git diff > patch.diff; git checkout -- .; ...; git apply patch.diff`.
  2. Make the change. Save it: cd {wt} && git diff > {out}/{pid}_k/patch.diff   (create the directory; replace k by the number).
  3. Write a small demonstration program {out}/{pid}_k/demo.py that exits 0 when the property holds and exits non-zero (assert failure) when it is broken; it must FAIL with your change applied and PASS on the clean tree. Run it both ways and confirm.
  4. Run the existing tests that cover the files you touched, with the change applied, and confirm they still pass: cd {wt} && PYTHONPATH={wt} /venv/bin/python -m pytest -q -p no:cacheprovider -x -n 8 <the relevant test files or directories, e.g. pyglove/core/symbolic> ; then run the full suite once: PYTHONPATH={wt} /venv/bin/python -m pytest -q -p no:cacheprovider -n 8 pyglove  (3 tests in io/file_system_test and text_color_test may fail even on a clean tree - ignore those). If any other test fails, revise the change until none does.
